@@ -16,7 +16,7 @@ from bounded.common import Result, guarded  # noqa: E402
 MEASURED = {
     "constant phase, custom weights": 6.3e-5,       # floor = tolerance of the lmfit offset fit, not the quadrature
     "constant phase, named windows": 6.3e-5,
-    "ladders, >= 10 points/decade": 3.6e-2,
+    "ladders, >= 10 points/decade": 3.6e-2,                      # custom unit weights and named windows alike
     "ladders, 5 points/decade (information only)": 3.9e-2,     # 5.1e-2 seen once with akima in a spike
     "scaling: |rec(cZ)| / (c |rec(Z)|) - 1": 6.2e-5,           # the fitted offset is only accurate to the minimiser's tolerance
     "scaling: frequency dependence of that ratio": 5.3e-15,
@@ -382,12 +382,16 @@ def main(a):
     for cdc in (spectra[1::4] if quick else spectra[::2]):
         for g in ([G71] if quick else [G71, (6, -3, 91)]):
             jobs.append(("run_windows", (cdc, g, wsets)))
+    # ladders with named windows (one slow call per job, scheduled first)
+    slow = [("run_windows", (cdc, G71, [ws])) for cdc in ladders[: (2 if quick else 8)] for ws in (wsets[:3] + wsets[4:5] if quick else wsets)]
+    jobs = slow + jobs
 
     counts = {fn: sum(1 for j in jobs if j[0] == fn) for fn in ("run_const", "run_ladder", "run_scaling", "run_zero_weight", "run_smoothing", "run_windows")}
     res = Result("C11", f"{len(spectra)} constant-phase spectra (R, C, L, Q with n 0.3..1, W) x {len(SMOOTHINGS)} smoothings x {len(INTERPOLATIONS)} interpolations x {{Z, Y}} x num_points/polynomial_order {npos} x "
                  f"custom weights {wkinds} x grids {grids} (+ smoothing/interpolation 'auto'); {len(ladders)} random R(RC|RQ)x1..3 ladders x 20 smoothing/interpolation pairs; "
                  f"{counts['run_scaling']} scaling pairs (c = 1e-3, 1e3); {counts['run_zero_weight']} zero-weight perturbations; 4 filters x {len(sm_npos)} (num_points, order) on constant/linear data; "
-                 f"{len(wsets)} named-window settings x {counts['run_windows']} spectra/grids",
+                 f"{len(wsets)} named-window settings (window=..., center, width; incl. 'auto' and the defaults) on constant-phase spectra and ladders ({counts['run_windows']} jobs), "
+                 f"weights of every window in the table checked for [0, 1] and zero outside the window",
                  "full product over the option sets for constant-phase spectra, seeded random ladders, covering design for the slow ladder runs; one case = (spectrum, grid, weights, options); "
                  "non-trivial = perform_zhit returned a reconstruction that was compared with the analytic modulus")
     maxima = {}
